@@ -189,6 +189,13 @@ class Interp:
                 return [q, r]
             q, r = np.linalg.qr(a[0])
             return [q, r]
+        if op == "svd":
+            if self.is_cubed:
+                import cubed.array_api.linalg as la
+                u, s_, vh = la.svd(a[0], full_matrices=False)
+                return [u, s_, vh]
+            u, s_, vh = np.linalg.svd(a[0], full_matrices=False)
+            return [u, s_, vh]
         if op == "map_blocks_neg":
             if self.is_cubed:
                 import cubed
